@@ -287,7 +287,12 @@ def walk_signature_is_standard(fn):
 
 
 def install_walk(C):
-    real = C.__dict__["_walk"]
+    real = C.__dict__.get("_walk")
+    if real is None:
+        # the private recursion has another name: only the public walk / interactions contracts bind
+        def real(self, *a, **k):
+            raise AttributeError("_walk")
+        MON.calls["stale:ccubes.ccube._walk"] += 1
     if getattr(real, "__cv_cube_layer__", False):
         return
 
@@ -353,9 +358,10 @@ def install_walk(C):
     _walk.__cv_cube_layer__ = True
     _walk.__wrapped_real__ = real
     _walk.__name__ = "_walk"
-    if walk_signature_is_standard(real):
+    if "_walk" in C.__dict__ and walk_signature_is_standard(real):
         C._walk = _walk
     else:
+        MON.calls["stale:ccubes.ccube._walk"] += 1
         # `_walk` is private: with another signature its per-branch contract does not bind (stale, not a failure);
         # the public walk / interactions contracts below still judge the whole trace, the recording moves to walk
         real_walk = C.__dict__["walk"]
